@@ -17,6 +17,13 @@ def configs(rng, tier):
                 item = "impl A {\n %s\n pub fn inc(&mut self) {}\n pub fn get(&self) -> u8 { 0 }\n}" % ct
                 cs.append({"kind": "actor", "lib": lib, "attr": gen_impl.actor_attr(lib, ch), "item": item, "nmodels": 1,
                            "label": "ctor lib=%s ch=%s %s" % (lib, ch, ct[:40]), "cfg": (lib, ch, ct)})
+    # models without any message (only static methods, or every method filtered out): the constructor still starts the one actor
+    for lib in gen_impl.LIBS:
+        for attr_x, item in (("", "impl A {\n pub fn new(v: u8) -> Self { todo!() }\n pub fn stat(x: u8) -> u8 { x }\n}"),
+                             ("exclude(inc, get)", "impl A {\n pub fn new() -> Self { todo!() }\n pub fn inc(&mut self) {}\n pub fn get(&self) -> u8 { 0 }\n}"),
+                             ("", "impl A {\n pub fn try_new(v: u8) -> Result<Self, String> { todo!() }\n pub fn stat(x: u8) -> u8 { x }\n}")):
+            cs.append({"kind": "actor", "lib": lib, "attr": gen_impl.actor_attr(lib, 2, extra=[attr_x] if attr_x else []), "item": item, "nmodels": 1,
+                       "label": "empty-script lib=%s %s" % (lib, attr_x or item[9:40]), "cfg": (lib, "empty", attr_x, item[:40])})
     # constructor parameters named like the identifiers the generated constructor binds itself
     for lib in gen_impl.LIBS:
         for debut in (False, True):
@@ -59,7 +66,20 @@ def run(rep):
         hit = sorted(binders & set(a[1] for a in ct["user_call"]["args"] if a[0] == "SVar"))
         return (hit, ct["order"]) if hit else None
 
+    def spawn_count(c, j):
+        try:
+            mdl = c["ex"]["models"][j]
+            ct = [m["body_ir"][1] for m in mdl["methods"] if m["body_ir"][0] == "BCtor"][0]
+            return len(ct.get("spawns", [])), ct.get("order")
+        except Exception:
+            return None
+
     def per_model(rep, c, j, r):
+        sc = spawn_count(c, j)
+        if sc is not None and sc[0] != 1 and c["kind"] == "actor":
+            rep.oblige(False)
+            return {"what": "the constructor of the handle starts %d actor threads / tasks (recognised constructor statements: %s): creating a handle must start exactly one, "
+                            "which owns the actor value until the last handle is gone" % sc}
         sh = ctor_shadow(c, j)
         if sh is not None:
             rep.oblige(False)
